@@ -3,7 +3,7 @@ from .dsl import *     # noqa
 from . import vocab    # noqa
 
 
-def _bin_table(rng, tier, nchrom=None, nbins=None):
+def _bin_table(rng, tier, nchrom=None, nbins=None, force_hole=False):
     """bin tables: 1..6 chromosomes incl. X/Y, 1..400 bins each (quick: ..130), with/without a centromere-sized gap,
     zero-weight bins, null-coverage bins at the edges and in the interior, duplicate gene names, Antitarget/ignored names"""
     import numpy as np
@@ -13,17 +13,23 @@ def _bin_table(rng, tier, nchrom=None, nbins=None):
                     key=lambda c: ["chr1", "chr2", "chr5", "chr17", "chrX", "chrY"].index(c))
     rows = []
     for c in chroms:
-        n = nbins or rng.choice([1, 2, 3, 10, 40, 130 if tier == "quick" else 400])
+        n = nbins or rng.choice([1, 2, 3, 10, 40, 130 if tier == "quick" else 400, 260])
         pos = rng.choice([0, 10000])
-        gap_at = rng.randrange(n) if (n > 105 and rng.random() < 0.6) else None
+        gap_at = rng.randrange(n) if (n > 105 and rng.random() < 0.6 and not force_hole) else None
         level = rng.choice([0.0, 0.0, -0.8, 0.5])
         step_at = rng.randrange(n) if rng.random() < 0.5 else None
+        hole = None
+        if n > 105 and (force_hole or rng.random() < 0.5):
+            # a run of interior null-coverage bins: filtering them opens a centromere-sized gap among the survivors
+            hl = 60 if force_hole else rng.choice([1, 30, 60])
+            h0 = rng.randrange(52, max(53, n - 52 - hl))
+            hole = (h0, h0 + hl)
         for k in range(n):
             if k == gap_at:
                 pos += 3000000
             if k == step_at:
                 level += rng.choice([-1.0, 0.6, 1.0])
-            L = rng.choice([200, 500, 1000])
+            L = rng.choice([200, 500, 1000]) if not hole else 2000
             lg = level + rng.gauss(0, 0.08)
             w = rng.uniform(0.3, 1.0)
             dep = max(0.0, 100 * 2 ** lg + rng.gauss(0, 3))
@@ -31,7 +37,7 @@ def _bin_table(rng, tier, nchrom=None, nbins=None):
             edge = k < 2 or k >= n - 2
             if u < (0.25 if edge else 0.04):
                 w = 0.0
-            elif u < (0.45 if edge else 0.08):
+            elif u < (0.45 if edge else 0.08) or (hole and hole[0] <= k < hole[1]):
                 lg, dep = -24.0 + rng.random(), 0.0          # null coverage
             rows.append(dict(chromosome=c, start=pos, end=pos + L,
                              gene=rng.choice(["A", "A", "B", "C", "Antitarget", "-", "CGH", "D"]),
@@ -45,6 +51,11 @@ def _gen_seg(rng, tier, i):
         return None
     method = ["none", "haar", "hmm", "hmm-tumor", "hmm-germline"][i % 5] if rng.random() < 0.8 else rng.choice(["none", "haar"])
     small = method.startswith("hmm")
+    if method in ("none", "haar") and rng.random() < 0.3:
+        # filtering opens a centromere-sized gap inside an arm (a run of interior null-coverage bins, skip_low on)
+        cn = _bin_table(rng, tier, nchrom=rng.randint(1, 2), nbins=260, force_hole=True)
+        return dict(cnarr=cn, method=method, skip_low=True, skip_outliers=rng.choice([0, 10]), min_weight=0,
+                    processes=rng.choice([1, 2]))
     cn = _bin_table(rng, tier, nchrom=rng.randint(1, 2) if small else None,
                     nbins=(rng.choice([40, 130]) if rng.random() < 0.8 else None) if small else None)
     return dict(cnarr=cn, method=method, skip_low=rng.random() < 0.5, skip_outliers=rng.choice([0, 10]),
